@@ -229,7 +229,7 @@ Fixpoint split_slash (l : list achar) : list (list achar) :=
 Section Search.
   (* the two system calls pathname expansion makes, on path strings *)
   Variable opendir : str -> option (list str).   (* entries, `.` and `..` included *)
-  Variable stat : str -> bool.                   (* fstatat(AT_FDCWD, path, follow) is Ok *)
+  Variable stat : str -> bool.                   (* fstatat(AT_FDCWD, path, no follow) is Ok *)
 
   Definition dir_of (prefix : str) : str :=
     match prefix with [] => s_dot | _ => prefix end.
@@ -372,7 +372,9 @@ Definition get_path (t : fs) (cwd path : str) : option (list str) :=
 Definition fs_lstat (t : fs) (cwd path : str) : bool :=
   match get_path t cwd path with Some _ => true | None => false end.
 
-(* resolve_existing_file with follow_symlinks: at most _POSIX_SYMLOOP_MAX = 8
+(* (Not used by glob since file_exists stopped following links; kept as the
+   model of what following means, for the example that a dangling link is found.)
+   resolve_existing_file with follow_symlinks: at most _POSIX_SYMLOOP_MAX = 8
    rounds; only the final component is ever followed (FileSystem::get does not
    look through a link in the middle of a path) *)
 Fixpoint stat_loop (t : fs) (rounds : nat) (cs : list comp) (trailing : bool) : bool :=
@@ -431,7 +433,7 @@ Definition field_supported (field : list achar) : bool :=
 
 (* the pathnames found, sorted (empty = nothing found) *)
 Definition glob_paths (t : fs) (cwd : str) (field : list achar) : list str :=
-  sort_strs (search (fs_opendir t cwd) (fs_stat t cwd) [] (split_slash field)).
+  sort_strs (search (fs_opendir t cwd) (fs_lstat t cwd) [] (split_slash field)).
 
 Definition glob_model (t : fs) (cwd : str) (noglob : bool) (field : list achar) : outcome :=
   if noglob then GFields [unquote field]
